@@ -448,6 +448,12 @@ func bombQuery(family string, d int) string {
 			fmt.Fprintf(&sb, "fragment H%d on Obj { uu { ... on Obj { ...H%d } ... on Obj { ...H%d } } }\n", i, i+1, i+1)
 		}
 		fmt.Fprintf(&sb, "fragment H%d on Obj { x }\n", d)
+	case "nestlist": // as nestfield, but the two paths go through a list-typed field (List/NonNull wrappers)
+		sb.WriteString("{ obj { ...K0 } }\n")
+		for i := 0; i < d; i++ {
+			fmt.Fprintf(&sb, "fragment K%d on Obj { kids { ...K%d } k2: kids { ...K%d } }\n", i, i+1, i+1)
+		}
+		fmt.Fprintf(&sb, "fragment K%d on Obj { x }\n", d)
 	case "chain": // control: linear
 		sb.WriteString("{ ...F0 }\n")
 		for i := 0; i < d; i++ {
@@ -467,7 +473,7 @@ func bombQuery(family string, d int) string {
 	return sb.String()
 }
 
-var bombFamilies = []string{"sibling2", "sibling3", "mixed", "nestfield", "unionbomb", "chain", "wide", "inline"}
+var bombFamilies = []string{"sibling2", "sibling3", "mixed", "nestfield", "nestlist", "unionbomb", "chain", "wide", "inline"}
 
 // ---- socket scripts ----
 
